@@ -83,6 +83,8 @@ type gen struct {
 	p    *Package
 	bufs map[string]*strings.Builder
 	n    int
+	// untwinned: exported type names that have no lower-case twin yet
+	untwinned []string
 }
 
 func (g *gen) w(file, s string, a ...any) {
@@ -244,6 +246,15 @@ func (g *gen) typeSpec(f, kind string, grouped bool) {
 	name := fmt.Sprintf("T%d", g.n)
 	if g.r.Intn(5) == 0 {
 		name = fmt.Sprintf("t%d", g.n) // unexported
+	}
+	// case twins: an unexported type whose name differs from an earlier exported one only in case (T7 / t7) - any
+	// ordering or table keyed case-insensitively ties on them
+	if len(g.untwinned) > 0 && g.r.Intn(5) == 0 {
+		k := g.r.Intn(len(g.untwinned))
+		name = "t" + g.untwinned[k][1:]
+		g.untwinned = append(g.untwinned[:k], g.untwinned[k+1:]...)
+	} else if name[0] == 'T' {
+		g.untwinned = append(g.untwinned, name)
 	}
 	t := &TypeDecl{Name: name, Kind: kind, DeclTags: map[string][]string{}, File: f, Grouped: grouped}
 	ind := ""
